@@ -23,6 +23,9 @@ pub enum Op {
     Cancel,
     /// REQ only: try a send while the recv is abandoned (must be refused)
     TrySend,
+    /// peer j closes its connection after everything it has written (not REQ): a recv that
+    /// meets the end of that stream may itself be abandoned afterwards
+    PeerEnd(usize),
 }
 
 #[derive(Debug, Clone, Serialize, Deserialize, PartialEq, Eq, Hash)]
@@ -92,6 +95,7 @@ pub fn cancel_outcome(c: &CancelCase) -> Outcome {
             let mut req_outstanding = false;
             // REP: a request has been handed to the application and not been answered yet
             let mut rep_owes_reply = false;
+            let mut ended = vec![false; n_peers];
 
             // REQ: issue the next request (when none is outstanding) and make its reply available
             macro_rules! req_next {
@@ -196,7 +200,23 @@ pub fn cancel_outcome(c: &CancelCase) -> Outcome {
                             }
                         }
                     }
+                    Op::PeerEnd(j) => {
+                        if kind != Kind::Req && links.len() >= 2 {
+                            let j = *j % links.len();
+                            links[j].to_lib.end_after_all(crate::pipe::ReadEnd::Eof);
+                            ended[j] = true;
+                            classes.push("peer-ends-between-abandoned-recvs".into());
+                        }
+                    }
                     Op::TrySend => {
+                        // (a reply to a requester whose connection has ended in the meantime has
+                        // nowhere to go: not asserted)
+                        let requester_gone = kind == Kind::Rep && got.last().and_then(|m| m.first()).and_then(|t| t.iter().position(|c| *c == b'-').and_then(|d| t.get(1..d)).and_then(|x| std::str::from_utf8(x).ok()).and_then(|x| x.parse::<usize>().ok())).map(|j| ended.get(j).copied().unwrap_or(false)).unwrap_or(false);
+                        if kind == Kind::Rep && recv.is_none() && rep_owes_reply && requester_gone {
+                            let a = sim.send(s, &[b"reply".to_vec()]);
+                            let _ = sim.run(a).await;
+                            rep_owes_reply = false;
+                        }
                         if kind == Kind::Rep && recv.is_none() && rep_owes_reply {
                             // an abandoned recv must not have disturbed the pending reply
                             let before: usize = links.iter().map(|l| l.from_lib.tap_len()).sum();
@@ -361,12 +381,13 @@ fn gen_cancel(s: &mut Src<'_>) -> CancelCase {
         .collect();
     let n = s.range(5, 60);
     let ops = (0..n)
-        .map(|_| match s.weighted(&[6, 6, 3, 2, 1]) {
+        .map(|_| match s.weighted(&[6, 6, 3, 2, 1, 1]) {
             0 => Op::Deliver(s.below(np), s.pick(&[1usize, 1, 2, 3, 9, 40, 0])),
             1 => Op::Poll(s.range(1, 3)),
             2 => Op::Cancel,
             3 => Op::TrySend,
-            _ => Op::Start,
+            4 => Op::Start,
+            _ => Op::PeerEnd(s.below(3)),
         })
         .collect();
     CancelCase { kind, peers, ops }
@@ -422,6 +443,7 @@ pub fn run(ctx: &Ctx) -> (Report, PropertyMeta) {
     health(&mut report, "cancel-after-poll-with-partial-message", total, 200);
     health_abs(&mut report, "req-send-refused-after-abandoned-recv", 200);
     health(&mut report, "cancel-before-first-poll", total, 20);
+    health_abs(&mut report, "peer-ends-between-abandoned-recvs", 300);
 
     let meta = PropertyMeta {
         level: "exploration",
